@@ -627,7 +627,7 @@ def run(ctx):
     from mc.checks import c01
     from mc.kernel import chunked, fan_out
     nk = len(c01.pal())
-    pnames = (list(c01.base_patterns()) if not ctx.quick else ["index", "ones", "zeros", "small"]) + ["neg0", "neg0le"]
+    pnames = (list(c01.base_patterns()) if not ctx.quick else ["index", "ones", "zeros", "small", "5a", "ascii"]) + ["neg0", "neg0le"]
     if not ctx.quick:
         pnames += [f"mul{i}" for i in range(24)]
     t.merge(fan_out(_task_parsed, [{"kinds": ch, "patterns": pnames} for ch in chunked(list(range(nk)), 4)], jobs=ctx.jobs, seed=ctx.seed))
